@@ -269,6 +269,7 @@ def check(run: Run) -> None:
     _check_typevar_pairing(run, m)
     from .c10 import check_dict_typing
 
+    _check_dict_attr_type(run, ctx, tt)
     run.rule("C08.R7", "dictionary literals are typed whenever their keys can be dataclass fields (shared with C07.R7 / C10.R3)")
     check_dict_typing(run, TermCtx(m, max_depth=1, opaque={"lookup_type", "remap_by_types"}), m, tt, "C08.R7")
 
@@ -521,3 +522,29 @@ def _run_body(body, env, op, selfname):
                 return None
             continue
     return None
+
+
+def _check_dict_attr_type(run: Run, ctx, tt) -> None:
+    """R8. <dict literal>.name has the type of the entry python would select: the last one with that key. Decided on
+    the construct: values[<matches>[k]] where <matches> lists the positions of equal keys in order - k must be -1."""
+    from ..terms import subterms
+
+    run.rule("C08.R8", "the type of <dict literal>.name is that of the last entry with that key")
+    va = tt.methods.get("visit_Attribute")
+    if va is None:
+        raise AnalysisError("anchor vanished: type_transformer.visit_Attribute")
+    fa = ctx.analysis(va)
+    n = 0
+    for node in own_nodes(va):
+        if not (isinstance(node, ast.Subscript) and isinstance(node.ctx, ast.Load) and fa.cfg.has_node(node)):
+            continue
+        t = strip_sites(fa.term_of(node))
+        if not (t[0] == "subscript" and t[1][0] == "attr" and t[1][2] == "values"):
+            continue
+        idx = t[2]
+        if idx[0] == "index" and idx[1][0] == "comp" and contains(idx[1], lambda q: q[0] == "attr" and q[2] == "keys") and isinstance(idx[2], int):
+            n += 1
+            fwd = not contains(idx[1], lambda q: q[0] == "app" and q[1] == ("global", "builtins.reversed"))
+            want = -1 if fwd else 0
+            run.check(idx[2] == want, "C08.R8", va, stmt_of(node), "the value whose type is recorded is the last entry with the key", f"the type recorded for <dict literal>.name is that of match number {idx[2]} of the entries with that key: with a repeated key python selects the last entry, whose type may differ", "values[key_index[-1]]", show(t)[:200], key="type of the first of several equal dictionary keys")
+    run.notes["dict_attr_type_selections"] = n
